@@ -62,14 +62,18 @@ pub enum Cmd {
     Ack,
     RpSet,
     ListCommands,
+    /// a write whose value carries a line feed followed by an administrative replication command (what a
+    /// WebSocket frame or an HTTP body can contain): the text after the line feed must never be executed,
+    /// here or on another node
+    SetWithLineFeed,
 }
 
-pub const ALL_CMDS: [Cmd; 35] = [
+pub const ALL_CMDS: [Cmd; 36] = [
     Cmd::Get, Cmd::GetSafe, Cmd::Set, Cmd::SetSafe, Cmd::Remove, Cmd::Increment, Cmd::Watch, Cmd::Keys, Cmd::Arbiter, Cmd::Resolve,
     Cmd::CreateDb, Cmd::Snapshot, Cmd::SnapshotNamed, Cmd::CreateUser, Cmd::SetPermissions, Cmd::ClusterState, Cmd::MetricsState,
     Cmd::DebugListDbs, Cmd::DebugPendingOps, Cmd::Join, Cmd::Leave, Cmd::SetPrimary, Cmd::SetSecoundary, Cmd::ElectionWin,
     Cmd::ElectionCandidate, Cmd::Replicate, Cmd::ReplicateRemove, Cmd::ReplicateIncrement, Cmd::ReplicateSnapshot, Cmd::ReplicateJoin,
-    Cmd::ReplicateLeave, Cmd::ReplicateSince, Cmd::Ack, Cmd::RpSet, Cmd::ListCommands,
+    Cmd::ReplicateLeave, Cmd::ReplicateSince, Cmd::Ack, Cmd::RpSet, Cmd::ListCommands, Cmd::SetWithLineFeed,
 ];
 
 #[derive(Clone, Debug, Serialize, Deserialize, PartialEq)]
@@ -223,6 +227,7 @@ fn line(cmd: &Cmd, key: &str, uniq: u32) -> String {
         Cmd::Ack => "ack 5 10.9.9.9:3014".to_string(),
         Cmd::RpSet => format!("rp 5 set {} viarp{}", key, uniq),
         Cmd::ListCommands => "list-commands".to_string(),
+        Cmd::SetWithLineFeed => format!("set {} lf{}\nreplicate d $$sec 99 injected{}", if key.starts_with("$$") { "ka" } else { key }, uniq, uniq),
     }
 }
 
@@ -240,7 +245,7 @@ enum Need {
 fn need(cmd: &Cmd) -> Need {
     match cmd {
         Cmd::Get | Cmd::GetSafe | Cmd::Watch => Need::Data('r'),
-        Cmd::Set | Cmd::SetSafe | Cmd::Resolve => Need::Data('w'),
+        Cmd::Set | Cmd::SetSafe | Cmd::Resolve | Cmd::SetWithLineFeed => Need::Data('w'),
         Cmd::Increment => Need::Data('i'),
         Cmd::Remove => Need::Data('x'),
         Cmd::Keys => Need::Selected,
@@ -277,6 +282,7 @@ fn perm_allows(perms: &Option<String>, kind: char, key: &str) -> bool {
 /// (None = none, Some(None) = database token, Some(Some(user)) = user token) and this permission list of the
 /// user, run `cmd` on `key`?
 fn model_allows(cmd: &Cmd, key: &str, is_admin: bool, selected: &Option<Option<String>>, perms: &Option<String>) -> bool {
+    let key = if *cmd == Cmd::SetWithLineFeed && key.starts_with("$$") { "ka" } else { key };
     let secure = key.starts_with("$$");
     let keyed = !matches!(cmd, Cmd::Keys | Cmd::Arbiter);
     let needs_selection_too = matches!(cmd, Cmd::CreateUser | Cmd::SetPermissions | Cmd::Snapshot);
@@ -396,6 +402,10 @@ fn run_wire_sessions(w: &World, own: &Arc<Databases>, prog: &Program, perms: &Op
             let l = line(cmd, key, uniq);
             let allowed = model_allows(cmd, key, is_admin, &selected, perms);
             if allowed && (disruptive(cmd) || matches!(cmd, Cmd::SetPermissions)) {
+                continue;
+            }
+            if *cmd == Cmd::SetWithLineFeed && ws.transport == Transport::Tcp {
+                // over TCP a line feed ends the command: that is two commands, not one value
                 continue;
             }
             let cred = cred_label(is_admin, &selected, perms);
@@ -660,11 +670,23 @@ fn execute(prog: Program, cluster: bool) -> Outcome {
                     if disruptive(cmd) {
                         continue;
                     }
+                    let secure_of = |d: &Arc<Databases>| dump_node(d).get("d").and_then(|(_, keys)| keys.get("$$sec").cloned());
+                    let sec_before = (secure_of(&own), other.as_ref().map(|d| secure_of(d)));
                     let r = s.exec(&l);
                     if cluster {
                         w.settle(100, 2_000);
                     }
                     out.allowed_checked += 1;
+                    if *cmd == Cmd::SetWithLineFeed && !is_admin {
+                        let sec_after = (secure_of(&own), other.as_ref().map(|d| secure_of(d)));
+                        if sec_before != sec_after {
+                            out.violations.push(Violation::new(
+                                "injected-command-executed",
+                                format!("{:?}:{}{}", cmd, cred, site),
+                                format!("step #{} {:?} with credential {} is a permitted write, but the secure key $$sec went {:?} -> {:?} (this node, other node): the text after the line feed was executed", i, l, cred, sec_before, sec_after),
+                            ));
+                        }
+                    }
                     let denied_text = match &r.resp {
                         Resp::Error(m) => m.contains("permission denied") || m.contains("Not auth") || m.contains("no-db-selected") || m.contains("must auth as an admin"),
                         _ => false,
